@@ -49,3 +49,66 @@ Proof.
   apply in_map_iff in H. destruct H as [p [_ Hp]]. exists r, p. split; [exact Hr|]. split; [exact Hp|].
   eapply served_inside; exact Hp.
 Qed.
+
+(** ** C01: which names the selected files get (source argument -> destination path) *)
+
+Lemma allowed_nil : forall p rprefix, allowed [] rprefix p = true.
+Proof. induction p as [|c r IH]; intros rprefix; cbn [allowed excluded]; [reflexivity|apply IH]. Qed.
+
+(** everything that exists under the requested root is listed *)
+Lemma serve_complete t req sub rel node :
+  valid_path (walk_root req) = true ->
+  lookup t (comps_of (walk_root req)) = Some sub -> lookup sub rel = Some node ->
+  In (comps_of (walk_root req) ++ rel) (serve_paths t req).
+Proof.
+  intros Hv L Lr. unfold serve_paths. rewrite Hv. cbn [negb]. rewrite L.
+  destruct rel as [|c r]; [left; now rewrite app_nil_r|right].
+  rewrite <- (rev_involutive (comps_of (walk_root req))) at 1.
+  eapply select_complete; [apply Nat.le_refl|discriminate|exact Lr|apply allowed_nil].
+Qed.
+
+Lemma render_from_app : forall p0 rel, p0 <> [] -> rel <> [] ->
+  render_from (p0 ++ rel) = render_from p0 ++ [47] ++ render_from rel.
+Proof.
+  induction p0 as [|c r IH]; intros rel H0 Hr; [congruence|].
+  destruct r as [|c' r'].
+  - destruct rel as [|d rel']; [congruence|]. reflexivity.
+  - change ((c :: c' :: r') ++ rel) with (c :: ((c' :: r') ++ rel)).
+    change (render_from (c :: (c' :: r') ++ rel)) with (c ++ [47] ++ render_from ((c' :: r') ++ rel)).
+    rewrite IH by (discriminate || assumption).
+    change (render_from (c :: c' :: r')) with (c ++ [47] ++ render_from (c' :: r')).
+    rewrite <- !app_assoc. reflexivity.
+Qed.
+
+Lemma render_app p0 rel : p0 <> [] -> rel <> [] -> render (p0 ++ rel) = render p0 ++ slash :: render rel.
+Proof.
+  intros H0 Hr. unfold render.
+  destruct (p0 ++ rel) eqn:E; [apply app_eq_nil in E; destruct E; congruence|]. rewrite <- E.
+  destruct p0; [congruence|]. destruct rel; [congruence|].
+  now rewrite render_from_app by discriminate.
+Qed.
+
+Lemma trim_prefix_app a x : trim_prefix a (a ++ x) = x.
+Proof.
+  unfold trim_prefix. rewrite firstn_app, Nat.sub_diag, firstn_all. cbn [firstn]. rewrite app_nil_r.
+  rewrite list_eqb_refl. rewrite skipn_app, Nat.sub_diag, skipn_all. reflexivity.
+Qed.
+
+(** a directory requested with a trailing slash: its contents are named
+    relative to it, the directory itself is "." *)
+Lemma wire_name_contents p0 rel : p0 <> [] ->
+  wire_name (render p0 ++ [slash]) (p0 ++ rel) = render rel.
+Proof.
+  intros H0. unfold wire_name.
+  destruct (render p0 ++ [slash]) as [|s0 s'] eqn:Es; [apply app_eq_nil in Es; destruct Es; discriminate|].
+  rewrite <- Es. clear Es s0 s'.
+  destruct rel as [|c r].
+  - rewrite app_nil_r, list_eqb_refl. reflexivity.
+  - rewrite render_app by (assumption || discriminate).
+    destruct (list_eqb ((render p0 ++ slash :: render (c :: r)) ++ [slash]) (render p0 ++ [slash])) eqn:E.
+    + apply list_eqb_eq in E. apply (f_equal (@length Z)) in E.
+      rewrite !app_length in E. cbn [length] in E. lia.
+    + replace (render p0 ++ slash :: render (c :: r)) with ((render p0 ++ [slash]) ++ render (c :: r))
+        by (rewrite <- app_assoc; reflexivity).
+      apply trim_prefix_app.
+Qed.
